@@ -1200,7 +1200,23 @@ bool evaluate_impl(const void *context, const GraphView &graph,
       } else {
         completed = annotate_on_exception(
             [&] { return node_view.evaluate(state.evaluation_time); },
-            [&] { state.evaluation_failed = true; });
+            [&] {
+              state.evaluation_failed = true;
+              // The cycle ends here. The nodes ranked after this one were
+              // not scanned, so their pending wake-ups are missing from the
+              // cached next time; a parent that catches the exception
+              // (try_except, the per-key capture of map_) pulls that time
+              // and would otherwise never wake the child for them.
+              for (std::size_t index = state.evaluation_cursor + 1;
+                   index < runtime.layout.node_count; ++index) {
+                const DateTime pending =
+                    graph_schedule(runtime, graph.data(), index);
+                if (pending > evaluation_time &&
+                    pending < state.next_scheduled_time) {
+                  state.next_scheduled_time = pending;
+                }
+              }
+            });
       }
       if (!completed) {
         // Pause requested: hold the cursor on this node and propagate upward
